@@ -4,13 +4,20 @@ from vlib import *  # noqa
 
 BAG = {
     "pubsub": '<<"join","sub","sub","unsub","pub","pub","pub","leave">>',
-    "rpc": '<<"join","reg","reg","unreg","call","call","call","cancel","yield","yield","inverr","leave","adv">>',
-    "cancel": '<<"join","reg","call","call","call","cancel","cancel","cancel","yield","inverr","leave","adv","adv","adv">>',
+    "rpc": '<<"join","reg","reg","regsh","unreg","call","call","call","cancel","yield","yield","inverr","leave","adv">>',
+    "cancel": '<<"join","reg","regsh","call","call","call","cancel","cancel","ckill","ckill","answer","answer","yield","inverr","leave","adv","adv","adv">>',
+    "killrpc": '<<"join","join","reg","regsh","call","call","call","kill","kill","kill","answer","leave","adv">>',
+    "tst": '<<"join","join","sub","sub","tst","tst","tst","tst","kill","leave","leave","pub","msess">>',
+    "shared": '<<"join","join","reg","regsh","regsh","regsh","unregsh","callsh","callsh","callsh","call","yield","leave","adv">>',
     "mixed": '<<"join","sub","unsub","pub","reg","unreg","call","cancel","yield","inverr","leave","adv">>',
     "meta": '<<"join","sub","sub","unsub","reg","reg","unreg","msess","msess","mreg","mreg","msub","msub","leave">>',
     "kill": '<<"join","join","sub","sub","reg","call","tst","tst","kill","kill","msess","leave","pub">>',
     "hist": '<<"join","sub","unsub","pub","pub","pub","pub","hist","hist","hist","adv","leave">>',
     "disc": '<<"join","join","sub","sub","sub","pub","pub","pub","reg","reg","call","call","msess","leave">>',
+    "stall": '<<"join","sub","pub","pub","reg","reg","call","call","call","yield","yield","yield","stall","stall","resume","adv","adv">>',
+    "stallburst": '<<"join","join","sub","sub","sub","stall","bpub","bpub","bpub","resume","pub","leave">>',
+    "burst": '<<"join","join","sub","sub","sub","reg","pub","bpub","bpub","bpub","leave","bmix">>',
+    "burstrpc": '<<"join","join","reg","reg","sub","call","yield","bmix">>',
     "churn": '<<"join","join","sub","pub","reg","call","call","cancel","yield","leave","leave","leave","adv">>',
 }
 
@@ -29,14 +36,16 @@ PROPS = {
                 mc=dict(kinds=MC_RPC_KINDS,
                         inv=["TablesOK", "C02_AtMostOneFinal", "C02_NoStray", "C02_Owed", "C02_NoOrphan", "C02_NoLateTimer"],
                         quick=dict(steps=5, nsess=2), thorough=dict(steps=6, nsess=3)),
-                gen=[dict(bag="rpc", depth=18, quick=160, thorough=2500),
-                     dict(bag="cancel", depth=18, quick=80, thorough=1500)],
+                gen=[dict(bag="rpc", depth=18, quick=120, thorough=2500),
+                     dict(bag="cancel", depth=18, quick=80, thorough=1500),
+                     dict(bag="killrpc", depth=16, quick=80, thorough=1500)],
                 classes=["rpcreply"]),
     "C03": dict(family="core",
                 mc=dict(kinds=MC_RPC_KINDS,
                         inv=["TablesOK", "C03_FreshInvocationIds", "C03_RegView", "C03_Routing", "C03_NoInvocationOtherwise"],
                         quick=dict(steps=5, nsess=2), thorough=dict(steps=6, nsess=3)),
-                gen=[dict(bag="rpc", depth=18, quick=200, thorough=3000)],
+                gen=[dict(bag="rpc", depth=18, quick=150, thorough=3000),
+                     dict(bag="shared", depth=20, quick=120, thorough=2000)],
                 classes=["rpcroute", "rpcreply"]),
     "C05": dict(family="core",
                 mc=dict(kinds=["join", "sub", "pub", "reg", "call", "cancel", "yield", "leave", "adv"],
@@ -44,20 +53,41 @@ PROPS = {
                         quick=dict(steps=5, nsess=2), thorough=dict(steps=6, nsess=3)),
                 gen=[dict(bag="churn", depth=18, quick=120, thorough=2500),
                      dict(bag="mixed", depth=20, quick=60, thorough=1500),
-                     dict(bag="kill", depth=18, quick=60, thorough=1500)],
+                     dict(bag="kill", depth=18, quick=60, thorough=1500),
+                     dict(bag="tst", depth=18, quick=50, thorough=1000)],
                 classes=["sess", "pubsub", "meta", "rpcreply", "rpcroute", "rpcintr", "snap"]),
     "C18": dict(family="core",
                 mc=dict(kinds=["join", "wsub", "sub", "reg", "kill", "tst", "leave"],
                         inv=["TablesOK", "C18_ObserverView", "C18_Kill", "C18_Testaments", "C05_NoTrace"],
                         quick=dict(steps=5, nsess=2), thorough=dict(steps=6, nsess=3)),
-                gen=[dict(bag="meta", depth=18, quick=160, thorough=2500),
-                     dict(bag="kill", depth=18, quick=100, thorough=2000)],
-                classes=["sess", "meta", "metaapi", "rpcreply"]),
+                gen=[dict(bag="meta", depth=18, quick=140, thorough=2500),
+                     dict(bag="kill", depth=18, quick=80, thorough=2000),
+                     dict(bag="tst", depth=18, quick=80, thorough=1500)],
+                classes=["sess", "meta", "metaapi", "rpcreply", "pubsub"]),
     "C20": dict(family="core",
                 mc=dict(kinds=["join", "sub", "unsub", "pub", "leave"], inv=MC_PUBSUB + ["C20_Retention"],
                         quick=dict(steps=5, nsess=2), thorough=dict(steps=6, nsess=3), mode="hist"),
                 gen=[dict(bag="hist", depth=18, quick=220, thorough=3000, mode="hist")],
                 classes=["metaapi", "rpcreply", "pubsub"]),
+    "C07": dict(family="core",
+                conc=dict(inv=["NoPanic", "Bounded"], props=["BrokerNeverWedged", "CloseReturns"]),
+                gen=[dict(bag="stall", depth=24, quick=220, thorough=2500, mode="stall"),
+                     dict(bag="stallburst", depth=16, quick=120, thorough=1500, mode="stall")],
+                classes=["sess", "pubsub", "meta", "rpcreply", "rpcroute", "rpcintr", "snap"]),
+    "C08": dict(family="core",
+                conc=dict(inv=["Ordered"], devs={"DevAsyncPublish": "Ordered"}),
+                gen=[dict(bag="burst", depth=14, quick=300, thorough=3000),
+                     dict(bag="burstrpc", depth=12, quick=200, thorough=2000)],
+                classes=["pubsub", "rpcreply", "rpcroute"]),
+    "C06": dict(family="core", crashpoints=True,
+                conc=dict(inv=["NoPanic", "QuietAfterClose", "ToldOrClosed"], props=["CloseReturns"],
+                          devs={"DevCloseEarly": "NoPanic", "DevWelcomeAfterStart": "NoPanic", "DevTimerAfterClose": "NoPanic"}),
+                mc=dict(kinds=["join", "sub", "pub", "reg", "call", "yield", "leave", "kill", "adv"], inv=["TablesOK", "C05_NoTrace", "C02_NoLateTimer"],
+                        quick=dict(steps=4, nsess=2), thorough=dict(steps=5, nsess=3)),
+                gen=[dict(bag="mixed", depth=16, quick=150, thorough=2400),
+                     dict(bag="cancel", depth=16, quick=120, thorough=1500),
+                     dict(bag="kill", depth=14, quick=80, thorough=1200)],
+                classes=["sess", "snap"]),
     "C10": dict(family="core",
                 mc=dict(kinds=["join", "sub", "pub", "reg", "call", "yield", "leave"], inv=["TablesOK"], props=["C10_Refusal"],
                         quick=dict(steps=4, nsess=3), thorough=dict(steps=6, nsess=3), mode="authz"),
@@ -83,8 +113,9 @@ PROPS = {
                 mc=dict(kinds=MC_RPC_KINDS,
                         inv=["C13_AtMostOneInterrupt", "C13_Modes", "C13_TimeoutExact", "C02_NoLateTimer"],
                         quick=dict(steps=5, nsess=2), thorough=dict(steps=6, nsess=3)),
-                gen=[dict(bag="cancel", depth=18, quick=220, thorough=3000)],
-                classes=["rpcreply", "rpcintr"]),
+                gen=[dict(bag="cancel", depth=18, quick=180, thorough=3000),
+                     dict(bag="shared", depth=20, quick=100, thorough=2000)],
+                classes=["rpcreply", "rpcintr", "rpcroute"]),
 }
 
 
@@ -115,6 +146,42 @@ def mc_cfg(mc, tier, devs=()):
         cfg += "PROPERTIES " + " ".join(mc["props"]) + "\n"
     cfg += "CHECK_DEADLOCK FALSE\n"
     return cfg
+
+
+CONC_SAFETY = {"quick": dict(sessions='{"s1", "s2"}', publishers='{"s1"}', qcap=1, npub=1),
+               "thorough": dict(sessions='{"s1", "s2"}', publishers='{"s1"}', qcap=2, npub=2)}
+CONC_LIVE = {"quick": dict(sessions='{"s1"}', publishers='{"s1"}', qcap=1, npub=1),
+             "thorough": dict(sessions='{"s1"}', publishers='{"s1"}', qcap=2, npub=2)}
+
+
+def conc_cfg(b, inv, props, devs=()):
+    cfg = "SPECIFICATION Spec\nCONSTANTS\n  Sessions = %s\n  Publishers = %s\n  QCap = %d\n  NPub = %d\n  Deviations = %s\n" % (
+        b["sessions"], b["publishers"], b["qcap"], b["npub"], tla_set(devs))
+    if inv:
+        cfg += "INVARIANTS " + " ".join(inv) + "\n"
+    if props:
+        cfg += "PROPERTIES " + " ".join(props) + "\n"
+    return cfg + "CHECK_DEADLOCK FALSE\n"
+
+
+def run_conc(work, conc, tier):
+    """leg 1 on the goroutine/channel skeleton spec/Conc.tla (PlusCal, committed translated)"""
+    tot = {"distinct": 0, "generated": 0, "wall_s": 0.0}
+    if conc.get("inv"):
+        st = model_check(work, "Conc", conc_cfg(CONC_SAFETY[tier], conc["inv"], []), timeout=3000, tag="conc-safety")
+        for k in tot:
+            tot[k] += st[k]
+    if conc.get("props"):
+        st = model_check(work, "Conc", conc_cfg(CONC_LIVE[tier], ["NoPanic"], conc["props"]), timeout=3000, tag="conc-live")
+        for k in tot:
+            tot[k] += st[k]
+    # the named deviations must each be caught by TLC (the invariants are not vacuous)
+    for dev, inv in conc.get("devs", {}).items():
+        cfg = conc_cfg(CONC_SAFETY["thorough"], [inv], [], [dev])
+        rc, out, wall = tlc(work, "Conc", cfg, [], 900, workers=CORES, tag="conc-dev-" + dev)
+        if "Invariant %s is violated" % inv not in out:
+            raise Infra("Conc.tla: deviation %s is not caught by invariant %s (vacuous?)" % (dev, inv))
+    return tot
 
 
 def op_histogram(evs):
@@ -189,6 +256,37 @@ def combine_realms(scns, seed, prop):
     return out
 
 
+def crashpoint_variants(scns, seed, prop):
+    """C06: every generated scenario is cut at a seeded point; there the router is
+    closed (or the realm removed), in half of the cases while the next input of the
+    scenario is submitted concurrently; afterwards attach attempts, a two hour
+    advance (so that every timer that was pending fires) and the goroutine count."""
+    rnd = random.Random(seed)
+    out = []
+    for n, sc in enumerate(scns):
+        steps = sc["steps"]
+        joins = [i for i, s in enumerate(steps) if s["op"] == "join"]
+        lo = joins[1] + 1 if len(joins) > 1 else 1
+        if lo >= len(steps):
+            continue
+        cut = rnd.randrange(lo, len(steps) + 1)
+        op = "closerouter" if rnd.random() < 0.7 else "rmrealm"
+        st = {"op": op}
+        nxt = steps[cut] if cut < len(steps) else None
+        if nxt is not None and nxt["op"] not in ("advance", "snap") and rnd.random() < 0.6:
+            st["with"] = nxt
+        elif rnd.random() < 0.5:
+            st["with"] = {"op": "join", "s": "z0", "join": {"authid": "u1", "color": "", "feats": [], "local": True, "q": 0}}
+            st["gate"] = rnd.random() < 0.5
+        post = [st,
+                {"op": "join", "s": "z1", "join": {"authid": "u1", "color": "", "feats": [], "local": True, "q": 0}},
+                {"op": "advance", "ms": 7200000},
+                {"op": "join", "s": "z2", "join": {"authid": "alice", "color": "", "feats": [], "local": False, "q": 0}},
+                {"op": "snap"}]
+        out.append({"id": "%s.cp%d.%04d" % (prop, seed, n + 1), "cfg": sc["cfg"], "steps": steps[:cut] + post, "epilogue": False})
+    return out
+
+
 def run_core(prop, spec, tier, seed, work, replay):
     known = [k for k in known_findings(prop) if k.get("status") == "known" and k.get("deviation")]
     devs = []      # the specification the properties demand: no deviation enabled
@@ -203,7 +301,13 @@ def run_core(prop, spec, tier, seed, work, replay):
         mcst = None
     else:
         # leg 1
-        mcst = model_check(work, "MC", mc_cfg(spec["mc"], tier), timeout=3000, tag="mc")
+        mcst = {"distinct": 0, "generated": 0, "wall_s": 0.0}
+        if spec.get("mc"):
+            mcst = model_check(work, "MC", mc_cfg(spec["mc"], tier), timeout=3000, tag="mc")
+        if spec.get("conc"):
+            cst = run_conc(work, spec["conc"], tier)
+            for k in mcst:
+                mcst[k] = mcst[k] + cst[k]
         log("leg 1: %d distinct states, %d generated, %.0fs" % (mcst["distinct"], mcst["generated"], mcst["wall_s"]))
         # leg 2: generate
         scns = []
@@ -217,6 +321,8 @@ def run_core(prop, spec, tier, seed, work, replay):
             scns += part
         if spec.get("realms"):
             scns = combine_realms(scns, seed, prop)
+        if spec.get("crashpoints"):
+            scns = crashpoint_variants(scns, seed, prop)
     byid = {s["id"]: s for s in scns}
     for s in list(scns):
         for r in range(len(s.get("realms") or [])):
@@ -277,7 +383,8 @@ def run_core(prop, spec, tier, seed, work, replay):
                    "in a synctest bubble and its recorded trace validated by TLC against Trace.tla; evaluations = validated "
                    "steps; distinct non-trivial = distinct (input kind, multiset of received message kinds) with at least one message",
            "scenarios_generated": len(scns), "trace_events": len(evs), "ops": op_histogram(evs),
-           "leg1": {"config": spec["mc"][tier], "invariants": spec["mc"]["inv"], "wall_s": mcst["wall_s"]},
+           "leg1": {"config": (spec.get("mc") or {}).get(tier), "invariants": (spec.get("mc") or {}).get("inv"),
+                    "conc": spec.get("conc"), "wall_s": mcst["wall_s"]},
            "classes_compared": classes, "binding_selftest": selftest,
            "checker_cmd": "tlc MC.tla (leg 1); tlc -simulate Gen.tla (leg 2); tlc Trace.tla (leg 3)",
            "exhaustive": False}
